@@ -64,8 +64,28 @@ extern void fixupL(const int_t, const int_t *, GlobalLU_t *);
 static pthread_mutex_t ev_mx = PTHREAD_MUTEX_INITIALIZER;
 static long ev_n, *ev_num, *ev_start, ev_cnt, ev_perturb;
 static unsigned ev_seed;
+/* image of the GlobalLU fields fixupL/countnz read, taken at the entry of p?gstrf_thread_finalize (hook H13) */
+static struct { int valid; long n, nsuper, nextu, len; int_t *xsup, *xsup_end, *supno, *lsub, *xlsub, *xlsub_end; } pre;
+static void pre_snapshot(long n, const pxgstrf_shared_t *sh)
+{
+    GlobalLU_t *G = sh->Glu; long s, len = 0, ns = G->nsuper + 1;
+    if (n <= 0 || ns <= 0 || ns > n) { pre.valid = 0; return; }
+    for (s = 0; s < ns; ++s) { long f = G->xsup[s]; if (f >= 0 && f < n && G->xlsub_end[f] > len) len = G->xlsub_end[f]; }
+    if (len > G->nzlmax) len = G->nzlmax;
+    pre.valid = 1; pre.n = n; pre.nsuper = G->nsuper; pre.nextu = G->nextu; pre.len = len;
+#define CPY(dst, src, cnt) do { pre.dst = malloc(((cnt) + 1) * sizeof(int_t)); memcpy(pre.dst, (src), (cnt) * sizeof(int_t)); } while (0)
+    CPY(xsup, G->xsup, ns); CPY(xsup_end, G->xsup_end, ns); CPY(supno, G->supno, n + 1);
+    CPY(lsub, G->lsub, len); CPY(xlsub, G->xlsub, n + 1); CPY(xlsub_end, G->xlsub_end, n);
+#undef CPY
+    /* xlsub / xlsub_end are defined at first columns of supernodes only: blank the rest so that the image is deterministic */
+    { long j; int_t *keep = calloc(n + 1, sizeof(int_t));
+      for (s = 0; s < ns; ++s) if (pre.xsup[s] >= 0 && pre.xsup[s] < n) keep[pre.xsup[s]] = 1;
+      for (j = 0; j < n; ++j) if (!keep[j]) { pre.xlsub[j] = 0; pre.xlsub_end[j] = 0; }
+      pre.xlsub[n] = 0; free(keep); }
+}
 static void verif_cb(int ev, long pnum, long a, long b, long c, const void *p)
 {
+    if (ev == SLU_VEV_PRE_FINALIZE) { pre_snapshot(a, (const pxgstrf_shared_t *) p); return; }
     if (ev == SLU_VEV_NSUPER) {
         int nap = 0;
         pthread_mutex_lock(&ev_mx);
@@ -84,6 +104,7 @@ static void ev_begin(long n, long perturb)
     long i; ev_n = n; ev_cnt = 0; ev_perturb = perturb; ev_seed = (unsigned) perturb;
     ev_num = malloc((n + 1) * sizeof(long)); ev_start = malloc((n + 1) * sizeof(long));
     for (i = 0; i < n; ++i) ev_num[i] = ev_start[i] = -1;
+    pre.valid = 0;
     slu_mt_verif_cb = verif_cb;
 }
 /* number of supernode pairs whose storage order differs from their number order */
@@ -178,6 +199,13 @@ int main(void)
                 pr_ivec(Us->rowind, lenu); pr_ivec(Us->colbeg, n); pr_ivec(Us->colend, n);
                 pr_ivec(perm_r, n); pr_ivec(perm_c, n);
                 printf(" %ld %ld", ninv, ev_cnt);
+#ifdef SLU_MT_VERIF
+                if (pre.valid) {   /* second line: the pre-finalize image  P id n nsuper nextu perm_r xsup xsup_end supno lsub xlsub xlsub_end */
+                    printf("\nR %sP %ld %ld %ld", id, pre.n, pre.nsuper, pre.nextu);
+                    pr_ivec(perm_r, n); pr_ivec(pre.xsup, pre.nsuper + 1); pr_ivec(pre.xsup_end, pre.nsuper + 1); pr_ivec(pre.supno, n + 1);
+                    pr_ivec(pre.lsub, pre.len); pr_ivec(pre.xlsub, n + 1); pr_ivec(pre.xlsub_end, n);
+                }
+#endif
             }
             printf("\n"); fflush(stdout);
         } else if (!strcmp(cmd, "fixupl")) {
